@@ -687,7 +687,7 @@ func writeMergedDirect(e *env, date string, reps []*telemetry.Report) {
 func caseChart() {
 	e := newEnv()
 	defer e.close()
-	malformed := vrnd.Chance(4)
+	malformed := vrnd.Chance(8) // a Go version goMajorMinor used to panic on (fixed by 48ba0d4)
 	cfg := genConfig(malformed)
 	ucfg := tconfig.NewConfig(cfg)
 	start := time.Date(2024, time.Month(1+vrnd.Intn(3)), 20+vrnd.Intn(12), 0, 0, 0, 0, time.UTC) // crosses month ends, leap day
